@@ -1,6 +1,9 @@
 package vkit
 
-import "math"
+import (
+	"math"
+	"math/big"
+)
 
 // Independent geometry oracles. Nothing here calls into package geom.
 
@@ -132,3 +135,59 @@ func RingAreaSigned(r []P2) float64 {
 // Off reports that a difference is NOT within the tolerance. Unlike `math.Abs(d) > tol` it is true for a NaN
 // difference, so a NaN result can never pass a numeric comparison silently.
 func Off(d, tol float64) bool { return !(math.Abs(d) <= tol) }
+
+// ---- exact predicates on float64 coordinates (rational arithmetic) ----
+
+// ExactOrient is the sign of the orientation determinant of (a, b, c): +1 left turn, -1 right turn, 0 collinear.
+func ExactOrient(a, b, c P2) int {
+	r := func(f F) *big.Rat { return new(big.Rat).SetFloat64(float64(f)) }
+	abx, aby := new(big.Rat).Sub(r(b[0]), r(a[0])), new(big.Rat).Sub(r(b[1]), r(a[1]))
+	acx, acy := new(big.Rat).Sub(r(c[0]), r(a[0])), new(big.Rat).Sub(r(c[1]), r(a[1]))
+	l, rr := new(big.Rat).Mul(abx, acy), new(big.Rat).Mul(aby, acx)
+	return l.Cmp(rr)
+}
+
+func exactBetween(a, b, p P2) bool { // p collinear with a, b: inside the closed box of a, b
+	return math.Min(float64(a[0]), float64(b[0])) <= float64(p[0]) && float64(p[0]) <= math.Max(float64(a[0]), float64(b[0])) &&
+		math.Min(float64(a[1]), float64(b[1])) <= float64(p[1]) && float64(p[1]) <= math.Max(float64(a[1]), float64(b[1]))
+}
+
+// ExactSegsMeet reports whether the closed segments ab and cd share a point, and whether they cross properly (each
+// one's end points strictly on either side of the other).
+func ExactSegsMeet(a, b, c, d P2) (meet, proper bool) {
+	o1, o2, o3, o4 := ExactOrient(a, b, c), ExactOrient(a, b, d), ExactOrient(c, d, a), ExactOrient(c, d, b)
+	if o1*o2 < 0 && o3*o4 < 0 {
+		return true, true
+	}
+	if o1 == 0 && exactBetween(a, b, c) || o2 == 0 && exactBetween(a, b, d) || o3 == 0 && exactBetween(c, d, a) || o4 == 0 && exactBetween(c, d, b) {
+		return true, false
+	}
+	return false, false
+}
+
+// ExactSimple: no two non-neighbouring segments of the open line share a point, neighbours share their vertex only, and
+// no segment has length zero - decided exactly.
+func ExactSimple(l []P2) bool {
+	n := len(l)
+	for i := 0; i+1 < n; i++ {
+		if l[i] == l[i+1] {
+			return false
+		}
+		for j := i + 1; j+1 < n; j++ {
+			if j == i+1 {
+				// neighbours: the next segment must not fold back onto this one
+				if ExactOrient(l[i], l[i+1], l[j+1]) == 0 && exactBetween(l[i], l[i+1], l[j+1]) {
+					return false
+				}
+				if ExactOrient(l[j], l[j+1], l[i]) == 0 && exactBetween(l[j], l[j+1], l[i]) {
+					return false
+				}
+				continue
+			}
+			if m, _ := ExactSegsMeet(l[i], l[i+1], l[j], l[j+1]); m {
+				return false
+			}
+		}
+	}
+	return true
+}
